@@ -72,7 +72,10 @@ func (f *Map) Call(s *slip.Scope, args slip.List, depth int) (result slip.Object
 	caller := ResolveToCaller(s, fn, d2)
 	seqs := make([]slip.List, len(args)-2)
 	for i, a := range args[2:] {
-		seqs[i] = slip.CoerceToList(a).(slip.List)
+		seqs[i], _ = slip.CoerceToList(a).(slip.List) // nil is the empty sequence
+	}
+	if len(seqs) == 0 {
+		slip.ErrorPanic(s, depth, "Too few arguments to map. At least one sequence is expected.")
 	}
 	var rlist slip.List
 	if 1 < len(seqs) {
